@@ -75,6 +75,9 @@ def cmd_check(args):
         (prop, tier, seed, args.repo, overlay.repo_revision(args.repo)))
   sys.stdout.flush()
   _bootstrap(args.repo)
+  if (args.runs is not None or args.profile or args.budget or
+      args.fail_fast) and not args.evidence:
+    args.no_evidence = True     # partial runs never overwrite the evidence
   spec = checks.spec(prop, tier, seed, args)
   workers = args.workers or spec.get("workers") or min(16, os.cpu_count() or 1)
   known = core.load_known()
@@ -82,6 +85,11 @@ def cmd_check(args):
 
   def on_result(res):
     state["done"] += 1
+    if args.fail_fast and res["ok"]:
+      for v in res["violations"]:
+        if v["property"] == prop and not (
+            v.get("known") and core.known_for(known, prop, v["known"])):
+          state["stop"] = True
     if args.verbose:
       print("  run %s/%s/%s %s wall=%.1fs viol=%d" %
             (res["engine"], res["profile"], res["run_index"],
@@ -91,7 +99,8 @@ def cmd_check(args):
 
   results, skipped = runner.run_jobs(spec["jobs"], workers,
                                      args.budget or spec["budget_s"],
-                                     on_result)
+                                     on_result,
+                                     stop=lambda: state.get("stop", False))
   rc = checks.report(prop, tier, seed, spec, results, skipped, known, t0,
                      args)
   return rc
@@ -164,7 +173,12 @@ def main(argv=None):
   c.add_argument("--budget", type=float)
   c.add_argument("--profile")
   c.add_argument("--no-minimise", action="store_true")
+  c.add_argument("--fail-fast", action="store_true",
+                 help="stop handing out runs after the first new violation "
+                      "(sensitivity sweeps); implies no evidence")
   c.add_argument("--no-evidence", action="store_true")
+  c.add_argument("--evidence", action="store_true",
+                 help="write evidence even for a partial (--runs/--profile) run")
   c.add_argument("--verbose", "-v", action="store_true")
   c.set_defaults(fn=cmd_check)
   r = sub.add_parser("replay")
